@@ -922,7 +922,7 @@ impl Property for C06 {
     const ID: &'static str = "C06";
     type Case = Case;
     fn rule() -> String {
-        "one case = (scalar text, style, tag, target type); the oracle evaluates it under all 16 combinations of strict_booleans / no_schema / legacy_octal_numbers / ignore_binary_tag_for_string, as a root scalar and as the two items of a block sequence (32 cells per case, counted in classes[\"cells ...\"]). Generation: (a) core corpus (integer notations, YAML 1.1 boolean table with case variants, null forms, float forms incl. .inf/.nan, overflow and subnormal boundaries, chars, strings, base64 look-alikes) x every representable style x 9 tags x 20 targets, exhaustive; (b) every integer width boundary 2^(w-1), 2^w (w=8..128) -2..+1 in decimal/0x/0o/0b/legacy-octal/leading-zero spellings x sign x separator and prefix-case variants, plain with no tag and !!int x 20 targets exhaustive plus rotating style/tag combinations (thorough: all); (c) all strings of length <= 6 over {A,B,Q,/,+,=,space,newline} as !!binary payloads; all byte arrays of length <= 2 encoded by the harness; random longer arrays with wrapping and damage; (d) random numeric-looking tokens from a grammar. Oracle: three-valued reference model written from README/rustdoc (big-integer accumulation then range test; bool/null/float tables; Rust's str::parse as the IEEE oracle; independent strict base64 decoder) + position independence + per-option metamorphic relations. Non-trivial: the token's integer reading lies within 2 of a width boundary 2^7..2^128, or the model's verdict differs between two option vectors. distinct = distinct (text, style, tag, target).".into()
+        "one case = (scalar text, style, tag, target type); the oracle evaluates it under all 16 combinations of strict_booleans / no_schema / legacy_octal_numbers / ignore_binary_tag_for_string, as a root scalar and as the two items of a block sequence (32 cells per case, counted in classes[\"cells ...\"]). Generation: (a) core corpus (integer notations, YAML 1.1 boolean table with case variants, null forms, float forms incl. .inf/.nan, overflow and subnormal boundaries, chars, strings, base64 look-alikes) x every representable style x 9 tags x 20 targets, exhaustive; (b) every integer width boundary 2^(w-1), 2^w (w=8..128) -2..+1 in decimal/0x/0o/0b/legacy-octal/leading-zero spellings x sign x separator and prefix-case variants, plain with no tag and !!int x 20 targets exhaustive plus rotating style/tag combinations (thorough: all); (c) all strings of length <= 6 over {A,B,E,Q,/,+,=,space,newline} as !!binary payloads; all byte arrays of length <= 2 encoded by the harness; random longer arrays with wrapping and damage; (d) random numeric-looking tokens from a grammar. Oracle: three-valued reference model written from README/rustdoc (big-integer accumulation then range test; bool/null/float tables; Rust's str::parse as the IEEE oracle; independent strict base64 decoder) + position independence + per-option metamorphic relations. Non-trivial: the token's integer reading lies within 2 of a width boundary 2^7..2^128, or the model's verdict differs between two option vectors. distinct = distinct (text, style, tag, target).".into()
     }
     fn assumptions() -> Vec<String> {
         vec![
@@ -1090,10 +1090,12 @@ impl Property for C06 {
         }
         ctx.subspace("width-boundary tokens x other (style, tag) combinations x 20 targets", n_r, thorough);
         // (c) base64
-        const B: [char; 8] = ['A', 'B', 'Q', '/', '+', '=', ' ', '\n'];
+        // (sextets 0, 1, 4, 16, 62, 63: a trailing `E` has only bit 2 set, which is non-canonical
+        // after one data character and canonical after two)
+        const B: [char; 9] = ['A', 'B', 'E', 'Q', '/', '+', '=', ' ', '\n'];
         let mut total = 0u64;
         for len in 0..=6u32 {
-            for code in 0..8u64.pow(len) {
+            for code in 0..9u64.pow(len) {
                 total += 1;
                 if !ctx.mine(total) {
                     continue;
@@ -1101,8 +1103,8 @@ impl Property for C06 {
                 let mut s = String::new();
                 let mut x = code;
                 for _ in 0..len {
-                    s.push(B[(x % 8) as usize]);
-                    x /= 8;
+                    s.push(B[(x % 9) as usize]);
+                    x /= 9;
                 }
                 for target in [Target::Bytes, Target::Str] {
                     submit(ctx, "base64-exhaustive", &Case { text: s.clone(), style: Style::Double, tag: Tag::Binary, target });
@@ -1115,7 +1117,7 @@ impl Property for C06 {
                 }
             }
         }
-        ctx.subspace("strings of length <= 6 over {A,B,Q,/,+,=,space,newline} as !!binary (double-quoted; Bytes and String targets)", total, true);
+        ctx.subspace("strings of length <= 6 over {A,B,E,Q,/,+,=,space,newline} as !!binary (double-quoted; Bytes and String targets)", total, true);
         let mut n_arr = 0u64;
         for code in 0..(1u32 + 256 + 65536) {
             n_arr += 1;
